@@ -91,19 +91,23 @@ HeaderWellFormed(c) ==
   /\ Negotiate(c) # "none" => Range(Hdr(c)) \subseteq {"std", "vgi"}
 
 \* ---------------------------------------------------------------- judging what the real code did
-(* observation o = [path, status, coding, hdr, decodes, same]
+(* observation o = [runs |-> sequence of run records], one per request sent for the case (same header pair):
+     run = [path, status, coding, hdr, decodes, same]
      path     "unary" | "producer"            (producer = continuation turn, pre-compressed code path)
      status   HTTP status
      coding   "z" | "g" | "none" | "other"    what the announcement header(s) name ("other": any other token,
                                               or two headers that disagree)
      hdr      "none" | "std" | "vgi" | "both" which announcement header(s) were present
      decodes  the body decodes under the announced coding (TRUE for no coding)
-     same     the decoded body equals the reference (uncompressed) body of the same request               *)
+     same     the decoded body equals the reference (uncompressed) body of the same request
+   A failing clause is reported as "<Clause>/<path>".                                                         *)
+RunFails(e, r) ==
+       {"Status200"     : x \in {1} \cap (IF r.status = 200 THEN {} ELSE {1})}
+  \cup {"Coding"        : x \in {1} \cap (IF r.coding = e.coding THEN {} ELSE {1})}
+  \cup {"Header"        : x \in {1} \cap (IF r.hdr \in Range(e.hdr) THEN {} ELSE {1})}
+  \cup {"BodyDecodes"   : x \in {1} \cap (IF r.decodes THEN {} ELSE {1})}
+  \cup {"BodyIdentical" : x \in {1} \cap (IF r.same THEN {} ELSE {1})}
 Conforms(c, o) ==
   LET e == Expected(c) IN
-     {"Status200"       : x \in {1} \cap (IF o.status = 200 THEN {} ELSE {1})}
-  \cup {"Coding"        : x \in {1} \cap (IF o.coding = e.coding THEN {} ELSE {1})}
-  \cup {"Header"        : x \in {1} \cap (IF o.hdr \in Range(e.hdr) THEN {} ELSE {1})}
-  \cup {"BodyDecodes"   : x \in {1} \cap (IF o.decodes THEN {} ELSE {1})}
-  \cup {"BodyIdentical" : x \in {1} \cap (IF o.same THEN {} ELSE {1})}
+    UNION {{cl \o "/" \o o.runs[k].path : cl \in RunFails(e, o.runs[k])} : k \in 1..Len(o.runs)}
 =====================================================================================
